@@ -6,10 +6,10 @@ CONSTANTS
   CandAttrs = 1
   MaxBlocks = 4
   MaxTxPerBlock = 2
-  MaxTxTotal = 2
+  MaxTxTotal = 3
   Window = 2
-  GCLag = 0
+  GCLag = 1
   CheckStay = TRUE
-  Deviation = "StaleKeepsNamed"
-INVARIANTS InvSound InvAdmits InvStay InvProp
+  Deviation = "none"
+INVARIANTS InvAnswers InvStay InvProp
 CHECK_DEADLOCK FALSE
